@@ -126,6 +126,31 @@ def explore(desc, tier, scratch=None, max_violations=3):
                 if res['diff'] and len(violations) < 50:
                     violations.append(_mk_violation(world, j, res['diff'],
                                                     _fault_spec(events, k, exc, when), oc2, history))
+            # ---- environment-lookup faults: flip every variable the code looked up -----------
+            # "the k-th call to any collaborator (environment lookup, ...)": a lookup fails when
+            # the variable is missing, and takes another branch when a missing one is present.
+            base_now = world.baseline_env(j)
+            flips = [k for k in m.reads if k not in driver._BASE_KEEP]
+            flips = flips[:(8 if tier == 'quick' else 24)]
+            for key in flips:
+                if key in base_now:
+                    extra = {key: None}
+                else:
+                    extra = {key: '$DIR' if key.endswith(('_REDUX', '_RESOLVE', '_MATCH', '_DIR', '_DATA',
+                                                          '_CALIB', '_SKY', '_SWEEP')) else 'flipped'}
+                world.restore_rw()
+                resF = world.execute(j, fault=None, keep_events=False, env_extra=extra)
+                st['env_lookup_flips'] = st.get('env_lookup_flips', 0) + 1
+                st['recordings'] += 1
+                ocF = outcome_class(world, resF)
+                st['outcomes'][ocF[0]] = st['outcomes'].get(ocF[0], 0) + 1
+                tr['injected'].append([key, extra[key], 'env-flip', ocF, resF['diff']])
+                if ocF[0] != 'returned':
+                    nontrivial.add(util.canon([entry, entry_state, _cfg_class(inv), 'env-flip', key, ocF[1:]]))
+                if resF['diff'] and len(violations) < 50:
+                    v = _mk_violation(world, j, resF['diff'], None, ocF, history)
+                    v['env_extra'] = extra
+                    violations.append(v)
             # ---- chained faults: a second failure while the first is being handled ------
             nchain = {'quick': 2, 'thorough': 12}.get(tier, 2)
             if tier == 'quick' and world.w['plots'] != 'stub':
@@ -303,6 +328,10 @@ def replay_desc(desc, v):
     for i in range(j):
         d['invocations'][i]['fault'] = copy.deepcopy(v['history_faults'][i])
     d['invocations'][j]['fault'] = copy.deepcopy(v['fault'])
+    if v.get('env_extra'):
+        ex = dict(d['invocations'][j].get('env_extra') or {})
+        ex.update(v['env_extra'])
+        d['invocations'][j]['env_extra'] = ex
     d['expect'] = {'invocation': j, 'vars': v['vars'], 'diff': v['diff']}
     return d
 
